@@ -285,13 +285,18 @@ def _z3_value(v):
     return None
 
 
-def solve_z3(text, pure_real, timeout_ms):
+def solve_z3(text, pure_real, timeout_ms, seed=None):
     import z3
     t0 = time.time()
     # a pure-real problem without products of unknowns (e.g. after ring abstraction) goes to the linear-arithmetic solver: the nonlinear one handles
     # Boolean structure over many conditionals badly
     s = (z3.SolverFor('QF_LRA') if text.startswith('; linear') else z3.SolverFor('QF_NRA')) if pure_real else z3.Solver()
     s.set('timeout', int(timeout_ms))
+    if seed is not None:
+        try:
+            s.set('random_seed', int(seed))
+        except z3.Z3Exception:
+            pass
     try:
         s.from_string(text)
         r = s.check()
@@ -344,5 +349,9 @@ def solve(text, pure_real, timeout_ms, use_cvc5=True):
         r2, m2, dt2 = solve_cvc5(text, pure_real, timeout_ms)
         if r2 in ('sat', 'unsat'):
             return r2, m2, 'cvc5', dt + dt2
-        return 'unknown', {'z3': m, 'cvc5': m2}, 'z3+cvc5', dt + dt2
+        # both gave up: one more z3 attempt with another random seed (a query that normally takes milliseconds occasionally wanders off; seen once under heavy load)
+        r3, m3, dt3 = solve_z3(text, pure_real, timeout_ms, seed=97)
+        if r3 in ('sat', 'unsat'):
+            return r3, m3, 'z3', dt + dt2 + dt3
+        return 'unknown', {'z3': m, 'cvc5': m2}, 'z3+cvc5', dt + dt2 + dt3
     return r, m, 'z3', dt
